@@ -33,6 +33,7 @@ def _worker(path, conn):
     except (ValueError, OSError):
         pass
     t0 = time.time()
+    rss0 = resource.getrusage(resource.RUSAGE_SELF).ru_maxrss      # inherited from the forking parent
     frames = D.frames_available()
     try:
         s, db, e = D.dump_db(path)
@@ -41,7 +42,7 @@ def _worker(path, conn):
     except RecursionError:
         s = "err recursionError"
     dt = time.time() - t0
-    rss = resource.getrusage(resource.RUSAGE_SELF).ru_maxrss
+    rss = resource.getrusage(resource.RUSAGE_SELF).ru_maxrss - rss0     # growth caused by this parse
     conn.send((hashlib.sha1(s.encode()).hexdigest(), s[:160], frames, dt, rss))
     conn.close()
 
@@ -77,7 +78,7 @@ def run_model(path, frames, limit):
     return out
 
 
-def run(ctx, per_db_quick=160, per_db_thorough=2500):
+def run(ctx, per_db_quick=130, per_db_thorough=2500):
     sc = C.Scratch()
     try:
         r = ctx.rng
@@ -85,9 +86,10 @@ def run(ctx, per_db_quick=160, per_db_thorough=2500):
         shapes = [dict(page_size=512, rows=150, churn=3, auto_vacuum=0, with_index=True, big_values=True),
                   dict(page_size=1024, rows=60, churn=2, auto_vacuum=1, with_index=True, big_values=True),
                   dict(page_size=4096, rows=400, churn=1, auto_vacuum=0, with_index=True, big_values=False),
-                  dict(page_size=65536, rows=20, churn=1, auto_vacuum=2, with_index=False, big_values=True)]
+                  dict(page_size=2048, rows=60, churn=1, auto_vacuum=2, with_index=False, big_values=True)]
         if ctx.thorough():
-            shapes += [dict(page_size=2048, rows=150, churn=3, auto_vacuum=2, with_index=True, big_values=True),
+            # (64 KiB pages make the recursion-limit-bounded walks very expensive for the model: thorough only)
+            shapes += [dict(page_size=65536, rows=20, churn=1, auto_vacuum=2, with_index=False, big_values=True),
                        dict(page_size=512, rows=400, churn=2, auto_vacuum=0, with_index=True, big_values=False)]
         for i, sh in enumerate(shapes):
             cfg = F.random_cfg(r, small=True)
@@ -112,7 +114,7 @@ def run(ctx, per_db_quick=160, per_db_thorough=2500):
             impl = run_impl(p, limit)
             model = None
             if "sha" in impl:
-                model = run_model(p, impl["frames"], max(90.0, 6 * limit))
+                model = run_model(p, impl["frames"], max(90.0, 6 * limit) * (10 if ctx.thorough() else 1))
             return job, impl, model
 
         with ThreadPoolExecutor(max_workers=14) as ex:
